@@ -1285,3 +1285,68 @@ variant('t-routing-nested-if', ['C01', 'C14', 'C15', 'C16'], RB,
         "        if (complete_frame.stream_id == CONNECTION_STREAM_ID or\n                isinstance(complete_frame, initiate_request_frame_types)):\n            await self._handle_frame_by_type(complete_frame, async_frame_handler_by_type)\n        elif",
         "        if complete_frame.stream_id == CONNECTION_STREAM_ID:\n            await self._handle_frame_by_type(complete_frame, async_frame_handler_by_type)\n        elif isinstance(complete_frame, initiate_request_frame_types):\n            await self._handle_frame_by_type(complete_frame, async_frame_handler_by_type)\n        elif",
         kind='twin')
+# ---- socket plumbing (rules/plumbing.py)
+variant('b-lease-drain-never-releases', ['C14'], RB,
+        "            self.send_frame(self._request_queue.get_nowait())\n            self._request_queue.task_done()",
+        "            break", ('C14.d', 'held requests released'))
+variant('b-lease-drain-ignores-allowance', ['C14'], RB,
+        "        while not self._request_queue.empty() and self._requester_lease.is_request_allowed():",
+        "        while not self._request_queue.empty():", ('C14.d', 'held requests released'))
+variant('b-lease-drain-stops-after-one', ['C14'], RB,
+        "        while not self._request_queue.empty() and self._requester_lease.is_request_allowed():",
+        "        if not self._request_queue.empty() and self._requester_lease.is_request_allowed():",
+        ('C14.d', 'held requests released'))
+variant('b-fail-unsent-skips-hold-queue', ['C11'], RB,
+        "        for queue in (self._send_queue, self._request_queue):",
+        "        for queue in (self._send_queue,):", ('C11.g', 'lease hold queue emptied'))
+variant('b-fail-unsent-only-first', ['C11'], RB,
+        "            while not queue.empty():\n                self._fail_sent_future(queue.get_nowait())",
+        "            if not queue.empty():\n                self._fail_sent_future(queue.get_nowait())",
+        ('C11.g', 'send queue emptied'))
+variant('b-fail-unsent-drops-without-failing', ['C11'], RB,
+        "                self._fail_sent_future(queue.get_nowait())", "                queue.get_nowait()",
+        ('C11.g', 'send queue emptied'))
+variant('b-priority-frame-drained-not-requeued', ['C05', 'C16'], RB,
+        "        for item in items:\n            self._send_queue.put_nowait(item)", "        items.clear()",
+        ('C', 'drained elements re-queued'))
+variant('b-priority-frame-not-first', ['C05', 'C16'], RB,
+        "        while not self._send_queue.empty():\n            items.append(self._send_queue.get_nowait())",
+        "        while self._send_queue.qsize() > 1:\n            items.append(self._send_queue.get_nowait())",
+        ('C', 'inserted into the emptied queue'))
+variant('b-send-error-on-connection-stream', ['C12'], RB,
+        "        self.send_frame(exception_to_error_frame(stream_id, exception))",
+        "        self.send_frame(exception_to_error_frame(CONNECTION_STREAM_ID, exception))",
+        ('C12.b', 'RSocketBase.send_error'))
+variant('b-send-error-noop', ['C12'], RB,
+        "        self.send_frame(exception_to_error_frame(stream_id, exception))",
+        "        logger().error('error on stream %s: %s', stream_id, exception)", ('C12.b', 'RSocketBase.send_error'))
+variant('b-before-sender-not-called', ['C15', 'C17'], RB, "                self._before_sender()\n", "",
+        ('C', '_before_sender() once'))
+variant('b-finally-sender-only-on-cancel', ['C15', 'C11'], RB,
+        "            logger().debug('%s: Asyncio task canceled: sender', self._log_identifier())\n        except Exception:\n            logger().error('%s: RSocket error', self._log_identifier(), exc_info=True)\n            raise\n        finally:\n            await self._finally_sender()",
+        "            logger().debug('%s: Asyncio task canceled: sender', self._log_identifier())\n            await self._finally_sender()\n        except Exception:\n            logger().error('%s: RSocket error', self._log_identifier(), exc_info=True)\n            raise",
+        ('C', '_finally_sender() on every exit'))
+variant('b-transport-closed-only-if-pending', ['C11', 'C17'], RB,
+        "        if self._current_transport().done():\n            logger().debug('%s: Closing transport'",
+        "        if not self._current_transport().done():\n            logger().debug('%s: Closing transport'",
+        ('C', 'an obtained transport is closed'))
+variant('b-lease-publisher-never-subscribed', ['C14'], RB,
+        "        if self._lease_publisher is not None:\n            self._lease_publisher.subscribe(self.LeaseSubscriber(self))",
+        "        if self._lease_publisher is None:\n            return", ('C14.e', 'publisher subscribed'))
+variant('b-send-lease-not-installed', ['C14'], RB,
+        "            self._responder_lease = lease\n\n            self.send_frame(self._responder_lease.to_frame())",
+        "            self.send_frame(lease.to_frame())", ('C14.e', 'send_lease'))
+variant('b-connect-no-lease-subscription', ['C14'], RB,
+        "        if self._honor_lease:\n            self._subscribe_to_lease_publisher()\n\n        return self",
+        "        return self", ('C14.e', 'RSocketBase.connect'))
+variant('t-fail-unsent-two-loops', ['C11'], RB,
+        "        for queue in (self._send_queue, self._request_queue):\n            while not queue.empty():\n                self._fail_sent_future(queue.get_nowait())",
+        "        while not self._send_queue.empty():\n            self._fail_sent_future(self._send_queue.get_nowait())\n        while not self._request_queue.empty():\n            self._fail_sent_future(self._request_queue.get_nowait())",
+        kind='twin')
+variant('t-send-lease-direct', ['C14'], RB,
+        "            self.send_frame(self._responder_lease.to_frame())", "            self.send_frame(lease.to_frame())",
+        kind='twin')
+variant('t-lease-drain-while-true', ['C14'], RB,
+        "        while not self._request_queue.empty() and self._requester_lease.is_request_allowed():\n            self.send_frame(self._request_queue.get_nowait())\n            self._request_queue.task_done()",
+        "        while True:\n            if self._request_queue.empty():\n                break\n            if not self._requester_lease.is_request_allowed():\n                break\n            self.send_frame(self._request_queue.get_nowait())\n            self._request_queue.task_done()",
+        kind='twin')
